@@ -39,10 +39,36 @@ COMMANDS = [('init', []), ('add-key', []), ('list-snapshots', []), ('ls', []), (
             ('list-objects', []), ('delete-objects', ['object-name'])]
 
 
-# --------------------------------------------------------------------------- tables (from the working tree)
-def load_tables():
-    """General rows / flags / env names / exclusive pairs / built-in backend parameters, read off the source by the
-    same extractor that writes coq/Gen/C19Tables.v."""
+# --------------------------------------------------------------------------- tables
+# The documented options (README: command line interface, configuration file, backends).  The oracles and the case
+# generator use THIS table; the model side uses the table extracted from the working tree (Gen/C19Tables.v); the two
+# are compared on every run.
+def _row(name, dest, flags, cli, file, env=None, envvar=None):
+    return {'name': name, 'dest': dest, 'flags': flags, 'cli': cli, 'env': env, 'envvar': envvar, 'file': file, 'backend_option': False}
+
+
+DOC_GENERAL = [
+    _row('repository', 'repository', ['-r', '--repository'], 'CoRepo', 'CoRepo', 'CoRepo', 'REPLICAT_REPOSITORY'),
+    _row('concurrent', 'concurrent', ['-c', '--concurrent'], 'CoNatCli', 'CoNatFile'),
+    _row('hide-progress', 'quiet', ['-q', '--hide-progress'], 'CoStoreTrue', 'CoBoolFile'),
+    _row('cache-directory', 'cache_directory', ['--cache-directory'], 'CoPath', 'CoPath'),
+    _row('no-cache', 'cache_directory', ['--no-cache'], 'CoConstNone', 'CoNoCacheFile'),
+    _row('password', 'password', ['-p', '--password'], 'CoBytes', 'CoBytes', 'CoBytes', 'REPLICAT_PASSWORD'),
+    _row('password-file', 'password', ['-P', '--password-file'], 'CoReadFile', 'CoReadFile'),
+    _row('key', 'key', [], None, 'CoBytes'),
+    _row('key-file', 'key', ['-K', '--key-file'], 'CoReadFile', 'CoReadFile'),
+    _row('log-level', 'log_level', [], None, 'CoLogLevel'),
+]
+DOC_EXCL_FILE = [('key', 'key-file'), ('password', 'password-file')]
+DOC_EXCL_CLI = [('no-cache', 'cache-directory'), ('password', 'password-file')]
+DOC_BACKENDS = {
+    'local': {'short': 'Local', 'params': []},
+    's3c': {'short': 'S3C', 'params': [('key_id', None), ('access_key', None), ('region', None), ('host', None), ('scheme', 'https')]},
+}
+
+
+def extracted_tables():
+    """The same tables read off the source by the extractor that writes coq/Gen/C19Tables.v."""
     from translate import pyast, units_c19
     cli = pyast.module('replicat/utils/cli.py')
     cfg = pyast.module('replicat/utils/config.py')
@@ -53,15 +79,40 @@ def load_tables():
     for r in rows:
         a = by_name.get(r['name'])
         e = [x for x in env if x['dest'] == r['dest'] and r['name'] == r['dest']]
-        general.append({'name': r['name'], 'dest': r['dest'], 'cli': a['co'] if a and a['co'] else None,
-                        'flags': a['flags'] if a else [], 'env': e[0]['co'] if e else None,
-                        'envvar': e[0]['var'] if e else None, 'file': r['co'], 'backend_option': False})
+        general.append(_row(r['name'], r['dest'], a['flags'] if a and a['co'] else [], a['co'] if a and a['co'] else None, r['co'],
+                            e[0]['co'] if e else None, e[0]['var'] if e else None))
     names = {r['name'] for r in rows}
     excl_cli = [tuple(m) for m in groups.values() if len(m) == 2 and set(m) <= names]
     backends = {}
     for mod, short, params in units_c19.backend_specs():
-        backends[mod] = {'short': short, 'params': [(p, None if d == 'None' else d) for p, d in params]}
-    return general, excl_file, excl_cli, backends
+        ps = []
+        for pn, d in params:
+            ps.append((pn, None if d == 'None' else d[len('(Some (VStr "'):-3] if d.startswith('(Some (VStr "') else d))
+        backends[mod] = {'short': short, 'params': ps}
+    return general, [tuple(x) for x in excl_file], excl_cli, backends
+
+
+def compare_tables(rep):
+    try:
+        general, excl_file, excl_cli, backends = extracted_tables()
+    except Exception as e:  # noqa - the extractor fails closed
+        rep.disagreements.append({'what': f'the option tables cannot be extracted from the working tree: {type(e).__name__}: {e}', 'replay': None})
+        return
+    diffs = []
+    if general != DOC_GENERAL:
+        doc = {r['name']: r for r in DOC_GENERAL}
+        ext = {r['name']: r for r in general}
+        for n in sorted(set(doc) | set(ext)):
+            if doc.get(n) != ext.get(n):
+                diffs.append(f'{n}: documented {doc.get(n)} extracted {ext.get(n)}')
+    if sorted(excl_file) != sorted(DOC_EXCL_FILE) or sorted(excl_cli) != sorted(DOC_EXCL_CLI):
+        diffs.append(f'exclusive pairs: documented {DOC_EXCL_FILE} / {DOC_EXCL_CLI} extracted {excl_file} / {excl_cli}')
+    for b, spec in DOC_BACKENDS.items():
+        if backends.get(b) != spec:
+            diffs.append(f'backend {b}: documented {spec} extracted {backends.get(b)}')
+    if diffs:
+        rep.disagreements.append({'what': 'the option tables extracted from the working tree differ from the documented ones: ' + '; '.join(diffs)[:700],
+                                  'replay': None})
 
 
 def backend_rows(short, params):
@@ -85,9 +136,7 @@ def coq_value(v):
 def coq_params(params):
     out = []
     for p, d in params:
-        if isinstance(d, str) and d.startswith('('):          # already a Coq literal (built-in backends)
-            out.append(f'({core.coq_string(p)}, {d})')
-        elif d is None:
+        if d is None:
             out.append(f'({core.coq_string(p)}, None)')
         else:
             out.append(f'({core.coq_string(p)}, Some {coq_value(d)})')
@@ -150,11 +199,11 @@ class World:
         d = self.root / 'pcx' / 'replicat' / 'backends'
         d.mkdir(parents=True)
         (d / 'pc.py').write_text(PC_SOURCE)
-        self.general, self.excl_file, self.excl_cli, self.builtin = load_tables()
+        self.general, self.excl_file, self.excl_cli = DOC_GENERAL, DOC_EXCL_FILE, DOC_EXCL_CLI
         self.backends = {
             'pc': {'short': 'PROUDCLOUD', 'params': PC_PARAMS},
-            's3c': self.builtin['s3c'],
-            'local': self.builtin['local'],
+            's3c': DOC_BACKENDS['s3c'],
+            'local': DOC_BACKENDS['local'],
         }
         self.files = {}
         for r in self.general:
@@ -503,6 +552,15 @@ def check(world, cases, rep: Report, with_model=True):
         if case['kind'] == 'invalid' and obs['status'] == 'ok':
             rep.violations.append({'what': f'invalid value accepted: {case["given"]}', 'signature': {'kind': 'invalid_accepted'}, 'replay': label(case)})
 
+    # (4) the backend that was loaded and constructed is the one the effective repository names
+    for case, obs in zip(cases, results):
+        if obs['status'] == 'ok':
+            repo = obs['args'].get('repository')
+            if not (repo and repo[0] == 'tuple' and obs.get('loaded') == repo[1][0][1] and obs.get('backend', {}).get('conn') == repo[1][1]):
+                rep.violations.append({'what': f'the effective repository is {repo} but the backend module loaded is {obs.get("loaded")!r} '
+                                               f'constructed with {obs.get("backend", {}).get("conn")}',
+                                       'signature': {'kind': 'backend_mismatch', 'backend': case['backend']}, 'replay': label(case)})
+
     # ---- correspondence with the model
     if with_model and cases:
         model, err = run_model(world, cases)
@@ -552,6 +610,7 @@ RULE = ('one option (general, built-in backend, custom backend on the namespace-
 def run(ctx) -> Report:
     rep = Report(rule=RULE)
     world = World(ctx)
+    compare_tables(rep)
     thorough = ctx.tier == 'thorough'
     cases = precedence_cases(world, ctx, ['pc', 's3c', 'local'], all_commands=thorough)
     cases += agreement_cases(world, ctx, ['pc', 's3c'])
@@ -582,7 +641,12 @@ def replay(ctx, obj):
         if not isinstance(it, dict) or 'given' not in it:
             print('replay file does not carry an options case:', obj.get('kind'))
             return 0
-        given = [(rows_by_backend[it['backend']][n], s, v) for n, s, v in it['given']]
+        given = []
+        for n, s, v in it['given']:
+            row = rows_by_backend[it['backend']][n]
+            if row[{'cli': 'cli', 'env': 'env', 'prof': 'file', 'dflt': 'file'}[s]] == 'CoReadFile':
+                v = world.files[(n, s)]          # the files of the original run are gone
+            given.append((row, s, v))
         cases.append(world.make_case(it['backend'], it['command'], given, selector=it.get('selector', 'cli'),
                                      profile_mode=it.get('profile_mode', 0), kind=it.get('kind', 'precedence'), label='replay'))
     results = check(world, cases, rep)
@@ -592,4 +656,6 @@ def replay(ctx, obj):
         print('VIOLATION-REPRODUCED', v['what'])
     for d in rep.disagreements:
         print('DISAGREEMENT-REPRODUCED', d['what'])
+    if not rep.violations and not rep.disagreements:
+        print('not reproduced on the current working tree')
     return 1 if rep.violations or rep.disagreements else 0
